@@ -5,7 +5,7 @@
  "enforce": ["SHA256_Update_internal"],
  "replace": ["SHA256_Transform"],
  "annotate": ["alg/sha256.c"],
- "defines": ["VERIF_HALLOC", "SHA_MAXOBJ=130"],
+ "defines": ["VERIF_HALLOC", "SHA_MAXOBJ=70"],
  "thorough_defines": ["SHA_MAXOBJ=1024"],
  "timeout": 600,
  "assumptions": ["input object size <= SHA_MAXOBJ bytes (bounds the symbolic object only; the block loop is closed by its loop contract for every iteration count)",
